@@ -1,6 +1,7 @@
 """CPython executor with output capture and a step budget (reference semantics for C01)."""
 import sys
 import types
+import warnings
 
 
 class Budget(Exception):
@@ -79,7 +80,9 @@ def load(src, budget=200000, extra_env=None):
     if extra_env:
         env.update(extra_env)
     try:
-        code = compile(src, "<prog>", "exec")
+        with warnings.catch_warnings():
+            warnings.simplefilter("ignore")
+            code = compile(src, "<prog>", "exec")
     except SyntaxError as e:
         return None, outs, ("syntax", str(e))
     try:
